@@ -40,6 +40,15 @@ class Containers(object):
             x = np.array(events, dtype=np.uint16).reshape(len(events), C)
         elif kind == 'array-float':
             x = np.array(events, dtype=np.float64).reshape(len(events), C)
+        elif kind == 'sample-float-be':
+            path = os.path.join(self.dir, 'f.fcs')
+            big = any(isinstance(v, (int, float)) and v == v and v >= R for e in events for v in e)
+            fcsgen.write_sample(path, [[float(v) for v in e] for e in events], ['c%d' % (i + 1) for i in range(C)],
+                                [4096 if big else R] * C, datatype='F', big=True, pne=['0,0'] * C,
+                                pnv=[str(100 * (i + 1)) for i in range(C)])
+            with warnings.catch_warnings():
+                warnings.simplefilter('ignore')
+                x = FlowCal.io.FCSData(path)
         else:
             path = os.path.join(self.dir, 's.fcs')
             big = any(v >= R for e in events for v in e)
@@ -168,7 +177,7 @@ def main(chk, replay=None):
             elif gate == 'high_low':
                 ev, kind, form, hi, lo = scn
                 if any(v == -777 for e in ev for v in e):
-                    if kind != 'array-float':
+                    if kind not in ('array-float', 'sample-float-be'):
                         continue                  # NaN readings exist in floating-point data only
                     ev = [[float('nan') if v == -777 else v for v in e] for e in ev]
                 x = C.get([list(e) for e in ev], kind, 2)
@@ -186,7 +195,7 @@ def main(chk, replay=None):
                 # exponent codes -> values; a coordinate without logarithm is 0, or negative where the container allows
                 def val(code, pos):
                     if code == -1:
-                        return -5 if (kind == 'array-float' and pos % 2) else 0
+                        return -5 if (kind in ('array-float', 'sample-float-be') and pos % 2) else 0
                     return 10 ** code
                 x = C.get([[val(c, p) for p, c in enumerate(e)] for e in ev], kind, 3)
                 ch = render_form(form, 3)
@@ -199,10 +208,13 @@ def main(chk, replay=None):
                 call = lambda fo: FlowCal.gate.ellipse(x, ch, center=[cx, cy], a=a, b=b, theta=0, full_output=fo)   # noqa
                 label = 'ellipse/%s/%dch' % (kind, len(form['xs']))
             before = (np.asarray(x.view(np.ndarray)).tobytes(), repr(meta_of(x)))
+            ch_before = repr(ch) if gate != 'start_end' else None
             lab, obs = judge(call, x, exp)
             if (np.asarray(x.view(np.ndarray)).tobytes(), repr(meta_of(x))) != before:
                 lab = 'input-changed'
                 C.cache.clear()
+            elif gate != 'start_end' and repr(ch) != ch_before:
+                lab = 'caller-channel-list-changed'
             if not neg and exp['k'] == 'ok' and len(exp['mask']) >= 1 and lab is None:
                 bad = {'k': 'ok', 'mask': [not exp['mask'][0]] + list(exp['mask'][1:])}
                 chk.negative_control(judge(call, x, bad)[0] is not None, 'C08 comparator accepts a flipped mask bit')
